@@ -187,6 +187,50 @@ def run(ctx, build):
                         fs.close()
                     except Exception:
                         pass
+    # ---- creation in a FULL fixed root that holds deleted entries: the directory is compacted in place ----------
+    # (every way of creating an entry must have the volume flagged dirty while the records are being moved)
+    creators = [('open-ab', lambda p: dict(op='append', path=p, data=b'appended')),
+                ('open-wb', lambda p: dict(op='write', path=p, data=b'written', via='open')),
+                ('open-xb', lambda p: dict(op='write', path=p, data=b'exclusive', via='exclusive')),
+                ('write_bytes', lambda p: dict(op='write', path=p, data=b'bytes', via='bytes')),
+                ('touch', lambda p: dict(op='touch', path=p)), ('mkdir', lambda p: dict(op='mkdir', path=p)),
+                ('session-a+b', lambda p: dict(op='session', path=p, mode='a+b', buffering=0, steps=[('write', b'xy')], pos=0, size=2))]
+    for ft in ('fat16', 'fat12'):
+        for label, mk in creators:
+            g = fatimg.Geometry(ft, 40, spc=1, bps=512, nfats=2, root_entries=16, type_string=True)
+            b = fatimg.Builder(g, rng)
+            t = fatops.Tree()
+            for k in range(16):
+                nm = f'R{k}.BIN'
+                data = bytes([k + 1]) * 10
+                b.add(b.tree, nm, (nm.split('.')[0].encode().ljust(8), b'BIN'), data=data, lfn=False)
+                t.root['children'][nm] = {'kind': 'file', 'name': nm, 'data': bytearray(data)}
+            buf = bytearray(b'\xA5' * GUARD) + b.img + bytearray(b'\x5A' * GUARD)
+            tr = fattrace.Tracer(buf, slice(GUARD, len(buf) - GUARD))
+            fs = tr.open_fs()
+            try:
+                for j in (1, 4, 5, 8, 11, 13):              # scattered deleted entries, none at the end
+                    fatops.apply_impl(fs, dict(op='unlink', path=f'/R{j}.BIN'))
+                    del t.root['children'][f'R{j}.BIN']
+                op = mk('/a name needing four slots in all.txt')
+                before = copy.deepcopy(t)
+                fatops.apply_model(t, op)
+                res, events = tr.run(lambda: fatops.apply_impl(fs, op))
+                n = sum(1 for e in events if e[0] == 'poke')
+                images += n
+                ctx.case(('compaction', ft, label), n >= 2, 'root-compaction-' + label)
+                info = dict(fat_type=ft, case='creation in a full root with deleted entries (in-place compaction)', creator=label,
+                            op=jsonable_op(op), outcome=str(res)[:60], intermediate_images=n)
+                if res[1] != 'ok':
+                    ctx.violation('fs.dirty/compaction-outcome', f'{label}: creating an entry in a full root with six deleted entries gave {res}', info)
+                    return
+                if not examine(ctx, R, g, events, before, op, info):
+                    return
+            finally:
+                try:
+                    fs.close()
+                except Exception:
+                    pass
     ctx.extra['intermediate_images_checked'] = images
 
 
